@@ -1,10 +1,24 @@
 #!/bin/bash
-# Re-runs every stored seeded change (seeded/<id>/patch.diff) against the check(s) of its property in the scratch
-# worktree /tmp/seedchk and rewrites seeded/<id>/meta.json + seeded/INDEX.md. Several hours for the full set.
+# Re-runs every stored seeded change (seeded/<id>/patch.diff) against the check(s) of its property in scratch
+# worktrees (/tmp/seedchk_p<k>, one per partition, run in parallel) and rewrites seeded/<id>/meta.json + INDEX.md.
+# usage: seeded_rerun_all.sh [partitions=3]      (several hours for the full set)
 cd "$(dirname "$0")/.." || exit 2
-for d in seeded/*/; do
-  id=$(basename "$d"); [ -f "$d/meta.json" ] || continue
-  prop=$(python3 -c "import json;print(json.load(open('$d/meta.json'))['property'])")
-  python3 tools/seeded.py run --id "$id" --checks "$prop" || echo "FAILED $id"
+N=${1:-3}
+ids=( $(ls seeded | grep -v INDEX) )
+for k in $(seq 0 $((N-1))); do
+  (
+    i=0
+    for id in "${ids[@]}"; do
+      if [ $((i % N)) -eq $k ] && [ -f "seeded/$id/meta.json" ]; then
+        conf=$(python3 -c "import json;print(json.load(open('seeded/$id/meta.json')).get('confirmed'))")
+        prop=$(python3 -c "import json;print(json.load(open('seeded/$id/meta.json'))['property'])")
+        if [ "$conf" = "True" ]; then
+          SEEDED_WT=/tmp/seedchk_p$k python3 tools/seeded.py run --id "$id" --checks "$prop" || echo "FAILED $id"
+        fi
+      fi
+      i=$((i+1))
+    done
+  ) > build/seeded_rerun_p$k.log 2>&1 &
 done
+wait
 python3 tools/seeded_index.py
